@@ -1,7 +1,9 @@
 (* C10 -- The generated C# state machine implements exactly the transition table.
-   There is no C# compiler in this environment: the statements are about the emitted TOKEN STRUCTURE (brace matching and
-   the sequence of guard / exit / action / enter / state-assignment / return statements), executed by the model's
-   reading of those statements (Exit<S>() = OnExit of the current state object, Enter<T>() = new T + its OnEntry). *)
+   There is no C# compiler in this environment: the statements are about the emitted TOKEN STRUCTURE of the handlers (brace
+   matching and the sequence of guard / exit / action / enter / state-assignment / return statements) and about the
+   statement IR of the helper methods (constructor, Reset, Enter<StateT>, Exit<StateT>) parsed from the templates,
+   executed by the model's semantics of those statements; the check executes the REAL generated text with a small
+   C# statement interpreter (translator/csmini.py) and compares traces. *)
 From Coq Require Import String List Bool Arith.
 From KV Require Import Lib.TableDef Model.TTable Model.CsShape Spec.TableInterp Gen.CsTmpl Model.CsSM
                        Proofs.TTableProofs Proofs.SmlProofs Proofs.CsProofs Model.DeclShape Gen.DeclTmpl Model.Decls Proofs.DeclProofs
@@ -10,17 +12,44 @@ Import KV.Model.CsShape KV.Model.CsSM.
 Import ListNotations.
 Open Scope string_scope.
 
-(* For every table, state s, event e, guard oracle and guard-call count: the body that class s gives Trigger<e> has
-   matching braces, and executed in state s (state object and estate enum both s) it tests the guards of the rows of
-   (s, e) in table order and for the first that holds performs exit, action, enter and the state change (the action alone
-   for rows without target) and returns -- exactly the interpreter's step without a no-transition hook; afterwards the
-   state object and the enum agree. *)
-Theorem C10_handlers : forall t s e gv n,
+(* For every table, non-null state s, event e, guard oracle and guard-call count: the body that class s gives
+   Trigger<e> has matching braces, and executed in state s (state object and estate enum both s, controller set) it tests
+   the guards of the rows of (s, e) in table order and for the first that holds performs exit, action, enter and the
+   state change (the action alone for rows without target) and returns -- exactly the interpreter's step without a
+   no-transition hook.  sm.Exit<S>() and sm.Enter<T>() are EXECUTED from the IR of their bodies that translator/cstmpl.py
+   parses out of TEMPLATEInternals.cs (Gen/CsTmpl.v: cs_exit_ir, cs_enter_ir): Exit runs OnExit of the current state
+   object, Enter creates the T object and runs ITS OnEntry -- also when T is the current state (a self transition is
+   exit then entry); afterwards the state object and the enum agree and no exception was raised. *)
+Theorem C10_handlers : forall t s e gv n, String.eqb s "" = false ->
   exists prog, parse_braces (cs_handler t s e) = Some prog /\
-    cs_out (exec_cs gv e prog (mkCs s s n)) =
-    let '(tr, c, n') := step_rows_quiet gv n s e (rows_for t s e) in (tr, mkCs c c n').
+    cs_out (exec_cs gv e prog (mkCs s s n true false)) =
+    let '(tr, c, n') := step_rows_quiet gv n s e (rows_for t s e) in (tr, mkCs c c n' true false).
 Proof. exact cs_handler_sem. Qed.
 Print Assumptions C10_handlers.
+
+(* The whole machine, from the IR of the constructor, Reset(), Enter / Exit and the handler tokens: constructing it
+   sets the controller and enters the first row's start state -- that state's entry hook exactly once, nothing else --
+   and then every Trigger<e> (non-threaded configuration: dispatched synchronously to the current state object's class;
+   a class without an override inherits the empty virtual) makes exactly the callbacks of the table interpreter and
+   leaves estate (what every Is<State>() reads) at the interpreter's state; no step raises. *)
+Theorem C10_sem : forall t, wf_table t = true -> forall evs gv, run_cs t evs gv = Some (table_interp_quiet t evs gv).
+Proof. exact cs_sem. Qed.
+Print Assumptions C10_sem.
+
+Theorem C10_init : forall t, wf_table t = true -> forall gv,
+  run_cs t [] gv = Some [([CEntry (first_state t) startup_event], first_state t)].
+Proof. intros t H gv. exact (cs_sem t H [] gv). Qed.
+Print Assumptions C10_init.
+
+(* The helper methods as they were seeded in seeded/C10-2 (Enter<StateT>() returns early when the current state object
+   already is a StateT): executed by the same semantics, a self transition that fires runs the exit hook but not the
+   entry hook -- the model follows the source, so with that template C10_handlers / C10_sem stop compiling. *)
+Example C10_early_return_in_enter_refuted :
+  let enter := [HIfStateIsT [HReturn]; HNewState; HOnEntry] in
+  as_call_cs (exec_h "E" "" no_call no_call "S" enter (mkCs "S" "S" 0 true false)) = (false, [], mkCs "S" "S" 0 true false) /\
+  as_call_cs (exec_h "E" "" no_call no_call "T" enter (mkCs "S" "S" 0 true false)) = (false, [CEntry "T" "E"], mkCs "T" "S" 0 true false).
+Proof. vm_compute. split; reflexivity. Qed.
+Print Assumptions C10_early_return_in_enter_refuted.
 
 (* THE ENGINE'S OUTPUT.  For every table with well-formed rows: the file that the engine's pipeline (Model/EngineSM.v) produces
    from the per-state > per-event > per-transition block of the SHIPPED TEMPLATEInternals.cs (Model/CsRender.cs_block16: the lines of
@@ -35,8 +64,8 @@ Theorem C10_handlers_engine : forall tt structs protos msgs m dict,
   /\ forall s e gv n,
        cs_reads_all "X" (cs_handler_text (table_of tt) s e) (cs_handler (table_of tt) s e) = true
        /\ exists prog, parse_braces (cs_handler (table_of tt) s e) = Some prog /\
-            cs_out (exec_cs gv e prog (mkCs s s n)) =
-            let '(tr, c, n') := step_rows_quiet gv n s e (rows_for (table_of tt) s e) in (tr, mkCs c c n').
+            cs_out (exec_cs gv e prog (mkCs s s n true false)) =
+            let '(tr, c, n') := step_rows_quiet gv n s e (rows_for (table_of tt) s e) in (tr, mkCs c c n' true false).
 Proof. exact cs_handlers_engine. Qed.
 Print Assumptions C10_handlers_engine.
 
@@ -81,6 +110,15 @@ Print Assumptions C10_context_decls.
 
 Definition ex_table : table :=
   [mkRow "SA" "EvX" "SB" "OnA" "GuardG"; mkRow "SA" "EvX" "SC" "OnB" "None"; mkRow "SB" "EvX" "" "OnB" "GuardG"].
+
+Example C10_sem_nonvacuous :
+  wf_table ex_table = true /\
+  run_cs ex_table ["EvX"; "EvX"; "EvY"] (fun n _ => Nat.even n) =
+    Some [([CEntry "SA" "EventStartup"], "SA");
+          ([CGuard "GuardG" "EvX"; CExit "SA" "EvX"; CAction "OnA" "EvX"; CEntry "SB" "EvX"], "SB");
+          ([CGuard "GuardG" "EvX"], "SB"); ([], "SB")].
+Proof. vm_compute. split; reflexivity. Qed.
+Print Assumptions C10_sem_nonvacuous.
 
 Example C10_handlers_nonvacuous :
   cs_handler ex_table "SA" "EvX" =
